@@ -166,7 +166,8 @@ DEFAULT_WM = ("Relative", 0.5)
 
 
 def apply_wm(wm, mean):
-    return wm[1] * mean if wm[0] == "Relative" else wm[1]
+    # a relative width is a magnitude: |value * mean| (equal to value * mean whenever that is not negative)
+    return abs(wm[1] * mean) if wm[0] == "Relative" else wm[1]
 
 
 def places(e, out, holder=None):
@@ -553,7 +554,7 @@ def oracle(c, r):
             if mode["a"] is not None:
                 ok = same_float(sp["sigma"], unhex(mode["a"]))
             elif mode["r"] is not None:
-                ok = same_float(sp["sigma"], unhex(mode["r"]) * m)
+                ok = same_float(sp["sigma"], abs(unhex(mode["r"]) * m))
             else:
                 ok = any(same_float(sp["sigma"], apply_wm(w, m)) for w in wm_c)
             if not ok:
